@@ -72,3 +72,34 @@ func TestFindingNestedMarkerExceedsMaxKeys(t *testing.T) {
 	vlib.Finding(t, keyNested, len(q.Contents) > 1,
 		fmt.Sprintf("bucket keys [a/ab/a a/ab/b b]; GET ?max-keys=1&marker=a/ab/a -> keys=%v (%d > max-keys)", pageKeys(q), len(q.Contents)))
 }
+
+// A marker / start-after that names a directory makes the listing skip the keys below it.
+func TestFindingMarkerEqualToDirectoryName(t *testing.T) {
+	cluster(t)
+	b := setupBucket(t, s3Plain, false, []string{"a/x", "a/y", "b"}, nil, "none", "")
+	defer b.drop()
+	_, p1, body, err := b.cli.listPage(b.name, false, [][2]string{{"marker", "a"}})
+	if err != nil || p1 == nil {
+		t.Fatalf("INCONCLUSIVE list: %s %v", body, err)
+	}
+	_, p2, body, err := b.cli.listPage(b.name, true, [][2]string{{"start-after", "a"}})
+	if err != nil || p2 == nil {
+		t.Fatalf("INCONCLUSIVE list: %s %v", body, err)
+	}
+	k1, k2 := pageKeys(p1), pageKeys(p2)
+	vlib.Finding(t, keyDirMark, !contains(k1, "a/x") || !contains(k2, "a/x"),
+		fmt.Sprintf("bucket keys [a/x a/y b]; V1 ?marker=a -> %v; V2 ?start-after=a -> %v (a/x and a/y sort after \"a\")", k1, k2))
+}
+
+// The sub-directory a marker points into is listed without the name part of the prefix.
+func TestFindingMarkerSubdirIgnoresNamePrefix(t *testing.T) {
+	cluster(t)
+	b := setupBucket(t, s3Plain, false, []string{"a/ab", "b"}, nil, "none", "")
+	defer b.drop()
+	_, p, body, err := b.cli.listPage(b.name, false, [][2]string{{"prefix", "zz"}, {"marker", "a/0"}})
+	if err != nil || p == nil {
+		t.Fatalf("INCONCLUSIVE list: %s %v", body, err)
+	}
+	vlib.Finding(t, keyPfxSkip, len(p.Contents) > 0,
+		fmt.Sprintf("bucket keys [a/ab b]; GET ?prefix=zz&marker=a/0 -> keys=%v (none is under the prefix)", pageKeys(p)))
+}
